@@ -769,7 +769,7 @@ func checkAndDeleteKey(ctx context.Context,
 		var e error
 		attrs, e = blob.GetAttr(ctx, key)
 		if !errors.Is(e, status.ErrNotExists) {
-			return err
+			return e
 		}
 
 		return nil
@@ -777,6 +777,9 @@ func checkAndDeleteKey(ctx context.Context,
 		backoff.WithContext(insistantBackoff(), ctx),
 	); err != nil {
 		logger.Error("retrieving blob attributes", zap.Error(err))
+
+		// never delete a blob which we could not compare against the index time
+		return err
 	}
 
 	// the blob has been created after the index: skip
@@ -800,7 +803,7 @@ func checkAndDeleteKey(ctx context.Context,
 	if err = backoff.Retry(func() error {
 		e := blob.Delete(ctx, key)
 		if !errors.Is(e, status.ErrNotExists) {
-			return err
+			return e
 		}
 		// under high pressure, google API often fails with: "googleapi: Error 503: We encountered an internal error. Please try again., backendError"
 
